@@ -136,7 +136,22 @@ def justify_rules(run, fx):
         e1, e2 = revs
         c1 = sorted(set(f[:3] for f in dom.facts_at(j, e1['i'])))
         c2 = sorted(set(f[:3] for f in dom.facts_at(j, e2['i'])))
-        c1n, c2n = c1, c2
+        c1n = c1
+        # facts that hold already before the exit `if` (loop exits etc.) are not part of its guard
+        pre2 = set()
+        domt = j.dominators()
+        cands = []
+        for b in domt[j.block_of[e2['i']]]:
+            c = j.term_cond(b)
+            if c is None:
+                continue
+            ats = set(dom.norm(j, a, True)[:3] for a, p in dom.atoms(j, c, True)) | set(dom.norm(j, a, p)[:3] for a, p in dom.atoms(j, c, True))
+            if ats & set(c1):
+                cands.append(b)
+        if cands:
+            first = min(cands, key=lambda b: len(domt[b]))
+            pre2 = set(f[:3] for f in dom.facts_at_block(j, first))
+        c2n = sorted(set(c2) - (pre2 - set(c1)))
         if c1n and c1n == c2n:
             run.held('REVERSEPAIR', 'same condition', j.loc(e2), 'both reversals under %s' % c1n)
         else:
